@@ -13,7 +13,7 @@ ALLC = ['format_trashinfo', 'for_file', 'parse_path', 'parse_deletion_date']
 def config(tier):
     return {
         'level': 'exploration',
-        'cold_sample': 3 if tier == 'quick' else 20,
+        'cold_sample': 8 if tier == 'quick' else 30,
         'cases': 2400 if tier == 'quick' else 50000,
         'budget_s': 50 if tier == 'quick' else 560,
         'floors': {'cases': 200, 'c_format_trashinfo': 30000,
@@ -267,6 +267,7 @@ def run_direct(case):
         out['violations'].append({'mechanism': 'contract:' + f['contract'],
                                   'detail': f})
     out['nontrivial'] = nesc > 0
+    out['replayable'] = False        # no command is run: nothing to replay
     out['key'] = 'direct-%d' % case['seed']
     out['sample_obs'] = {'first': sample, 'evaluated': dict(contracts.SINK.counts)}
     out['verdict'] = 'violation' if out['violations'] else 'ok'
